@@ -45,9 +45,11 @@ def replay(lentil, rec, fields, ctx):
     pool = {'P': lentil.Pupil(amplitude=AMP.astype(float), opd=BASES[0] * unit, mask=np.ones(SHAPE, int),
                               pixelscale=(float(DX[0]), float(DX[1])), focal_length=float(Z))}
     hist = []
+    kept = []            # wavefronts the caller holds (action Pass)
 
-    def observe(s, eff, k):
-        w = lentil.Wavefront(float(LAM)) * pool[s]
+    def observe(s, eff, k, w=None):
+        if w is None:
+            w = lentil.Wavefront(float(LAM)) * pool[s]
         o = lentil.propagate_dft(w, pixelscale=(float(DU[0]), float(DU[1])), shape=OUT, oversample=OS)
         f = o.field
         e = fields[(eff['base'], tuple(eff['total']))]
@@ -57,8 +59,9 @@ def replay(lentil, rec, fields, ctx):
             acts = [h.split(':')[0] for h in hist]
             nfit = sum(1 for a in acts if a.startswith('Fit'))
             ctx.violation({'kind': 'observation-depends-on-history', 'fits_before': min(nfit, 2),
-                           'copied': any(a in ('Copy', 'FitCopy') for a in acts)},
-                          {'history': list(hist), 'observed_plane': s, 'effective_state': eff,
+                           'copied': any(a in ('Copy', 'FitCopy') for a in acts), 'held_wavefront': w is not None,
+                           'tilt_trimmed': 'TrimTilt' in acts, 'shallow_fit': 'ShallowFit' in acts},
+                          {'history': list(hist), 'observed_plane': s if w is None else 'a wavefront held since it passed', 'effective_state': eff,
                            'max_abs_error': float(np.abs(f - e).max()) if f.shape == e.shape else None},
                           case={'record': rec})
             return False
@@ -79,6 +82,21 @@ def replay(lentil, rec, fields, ctx):
             pool[st['arg']] = pool[s].fit_tilt(inplace=False)
         elif a == 'Copy':
             pool[st['arg']] = pool[s].copy()
+        elif a == 'Pass':
+            kept.append(lentil.Wavefront(float(LAM)) * pool[s])
+        elif a == 'TrimTilt':
+            # the angles that a ramp of k steps is worth, in the convention fit_tilt itself records them
+            d = lentil.Pupil(amplitude=AMP.astype(float), opd=ramp(st['arg']) * unit, mask=np.ones(SHAPE, int),
+                             pixelscale=(float(DX[0]), float(DX[1])), focal_length=float(Z)).fit_tilt().tilt[-1]
+            t = pool[s].tilt[-1]
+            t.x += d.x
+            t.y += d.y
+        elif a == 'ShallowFit':
+            import copy
+            copy.copy(pool[s]).fit_tilt(inplace=True)
+        elif a == 'ObserveHeld':
+            if not observe('-', st['exp'], k, w=kept[st['arg'] - 1]):
+                return
         elif a == 'Observe':
             if not observe(s, st['exp'], k):
                 return
@@ -88,6 +106,11 @@ def replay(lentil, rec, fields, ctx):
             if not observe(s, fin['eff'], len(rec['prog'])):
                 return
             hist.pop()
+    for i, eff in enumerate(rec.get('held', [])):
+        hist.append(f'ObserveHeld:{i + 1}:final')
+        if not observe('-', eff, len(rec['prog']), w=kept[i]):
+            return
+        hist.pop()
 
 
 def run(ctx, lentil):
@@ -95,7 +118,7 @@ def run(ctx, lentil):
     recs = []
     r = run_tlc('MC_PlaneHist', env={'PH_LEN': 3 if q else 4}, workers=4, timeout=900, coverage=True)
     ctx.add_tlc(r, f"MC_PlaneHist exhaustive length {3 if q else 4}")
-    ctx.require_coverage(r, ['AddRamp', 'AddRampIn', 'SetBase', 'FitIn', 'FitCopy', 'Copy', 'Observe'])
+    ctx.require_coverage(r, ['AddRamp', 'AddRampIn', 'SetBase', 'FitIn', 'FitCopy', 'Copy', 'Observe', 'Pass', 'TrimTilt', 'ShallowFit', 'ObserveHeld'])
     recs += r.emits
     r2 = run_tlc('MC_PlaneHist', env={'PH_LEN': 8}, workers=1, timeout=900, simulate=f"num={1500 if q else 12000}", depth=9, seed=ctx.seed + 11)
     ctx.add_tlc(r2, 'MC_PlaneHist simulate length 8')
@@ -103,11 +126,13 @@ def run(ctx, lentil):
     effs = set()
     for rec in recs:
         for st in rec['prog']:
-            if st['act'] == 'Observe':
+            if st['act'] in ('Observe', 'ObserveHeld'):
                 effs.add((st['exp']['base'], tuple(st['exp']['total'])))
         for s, fin in rec['final'].items():
             if fin['present']:
                 effs.add((fin['eff']['base'], tuple(fin['eff']['total'])))
+        for eff in rec.get('held', []):
+            effs.add((eff['base'], tuple(eff['total'])))
     fields = expected_fields(ctx, effs)
     for rec in recs:
         replay(lentil, rec, fields, ctx)
